@@ -1,7 +1,7 @@
 """C04 - IPC server callback order accept, created, msg*, closed, destroyed; no use-after-free."""
 from engine.qb import (AnalysisBroken, abstract_run, estr, unwrap, cval, walk, last_field, fields_of, callee_of,
                        mentions_var, atoms_of, root_var, TOP)
-from rules.common import field_is, has_call, derives, dec_and_test_atom, refcount_op
+from rules.common import field_is, has_call, derives, dec_and_test_atom, refcount_op, value_sources
 
 UNITS = ['lib/ipcs.c', 'lib/ipc_setup.c', 'lib/ipc_shm.c', 'lib/ipc_socket.c']
 DECIDES = ('Decides that each service callback has one call site guarded by the right connection state (finite evaluation of '
@@ -16,8 +16,12 @@ RULES = {
     'R4': 'reference brackets: after a call that may release the connection (user callback, qb_ipcs_disconnect, unref, and functions that reach them) the function only touches the connection while holding its own reference; balanced at every exit',
     'R5': 'qb_ipcs_connection_first_get/next_get reference the connection they return',
     'R6': 'connection_alloc and the pending-auth record take a service reference; qb_ipcs_unref frees only under dec_and_test; its callers are the owners',
+    'R7': 'a connection is shut down once: a second qb_ipcs_disconnect - from inside connection_closed, after it was accepted, while its re-run is queued - calls no callback, queues no job and drops no reference (qb_ipcs_disconnect re-evaluated from every state a first call leaves); the queued re-run does get connection_closed called again',
+    'R8': 'qb_ipcs_destroy walks the connections by references (first_get/next_get), takes the next one before disconnecting the current one and drops its reference afterwards',
+    'R9': 'a connection whose transport was taken down is not handed to the transport again: every send, sendv, fc_set, q_len_get and dispatch_mod reachable from a public function of ipcs.c is behind a test that the connection is ESTABLISHED or ACTIVE (exemptions: the teardown itself and the poll callback, with reasons)',
+    'R10': 'connection_destroyed is called under a guard reference, so that a reference taken and dropped inside it does not destroy the connection a second time',
 }
-FLOORS = {'R1': 24, 'R2': 3, 'R3': 7, 'R4': 8, 'R5': 2, 'R6': 5}
+FLOORS = {'R1': 24, 'R2': 4, 'R3': 7, 'R4': 8, 'R5': 2, 'R6': 5, 'R7': 6, 'R8': 3, 'R9': 6, 'R10': 1}
 
 CB = ('connection_accept', 'connection_created', 'msg_process', 'connection_closed', 'connection_destroyed')
 SLOT = 'qb_ipcs_service_handlers::%s'
@@ -32,6 +36,10 @@ def run(ctx):
     r4(ctx)
     r5(ctx)
     r6(ctx)
+    r7(ctx, st)
+    r8(ctx)
+    r9(ctx, st)
+    r10(ctx)
 
 
 def r1(ctx, st):
@@ -151,7 +159,8 @@ def r2(ctx, st):
     flags = {estr(ev.lhs) for ev in d.events('STORE') if unwrap(ev.lhs).get('k') == 'var' and cval(unwrap(ev.rhs)) in (0, 1)} | \
             {ev.d['var'] for ev in d.events('DECL') if 'init' in ev.d and cval(unwrap(ev.d['init'])) in (0, 1)}
     for (name, closed_res, job_res, want_unref, want_job) in (('closed-ok', 0, 0, True, False), ('closed-again+job-accepted', 1, 0, False, True),
-                                                               ('closed-again+job-refused', 1, -12, True, True)):
+                                                               ('closed-again+job-refused', 1, -12, True, True),
+                                                               ('closed-again+no-job_add', 1, 0, True, False)):
         def eff(ev, env, closed_res=closed_res, job_res=job_res):
             if ev.d is closed_st[0].d:
                 return {resv: closed_res, '#skip': True}
@@ -165,15 +174,312 @@ def r2(ctx, st):
         init = {sv: SHUT}
         if slot:
             init[slot] = 1      # a closed callback is installed
-        visits, _t = abstract_run(d, init, tracked={sv, resv, estr(job_st[0].lhs)} | flags | ({slot} if slot else set()), effect=eff)
+        jslots = _slot_tests(d, 'job_add')
+        for js in jslots:
+            init[js] = 0 if name == 'closed-again+no-job_add' else 1
+        for fl in _const_fields(d):
+            init.setdefault(fl, 0)      # a connection nobody has disconnected yet (calloc)
+        visits, _t = abstract_run(d, init, tracked={sv, resv, estr(job_st[0].lhs)} | flags | ({slot} if slot else set()) | set(jslots) | set(_const_fields(d)), effect=eff)
         calls = [ev.callee for (ev, env) in visits if ev.kind == 'CALL']
         unref = 'qb_ipcs_connection_unref' in calls
         job = 'qb_ipcs_poll_handlers::job_add' in calls
+        if name == 'closed-again+no-job_add' and not jslots:
+            ctx.check('R2', name, False, job_st[0], '', 'connection_closed returned non-zero and job_add is called without a test that the handler is installed '
+                      '(qbipcs.h allows a NULL job_add): call through NULL')
+            continue
         ctx.check('R2', name, unref == want_unref and job == want_job, d,
                   '%s: final unref %s, retry job %s' % (name, 'runs' if want_unref else 'is held back', 'scheduled' if want_job else 'not scheduled'),
                   '%s: final unref %s, retry job %s (expected unref=%s job=%s): %s' % (
                       name, unref, job, want_unref, want_job,
                       'the connection is freed while a retry job still points at it' if unref and not want_unref else 'the connection is never destroyed'))
+
+
+def _slot_tests(f, field):
+    """expressions of the handler slot `field` that are tested in f (as a condition or part of one)"""
+    out = set()
+    for b in f.blocks.values():
+        if b.cond is None:
+            continue
+        for n in walk(b.cond):
+            if n.get('k') == 'mem' and n.get('f') == field:
+                out.add(estr(n))
+    return sorted(out)
+
+
+def _const_fields(f):
+    """fields of the connection (other than state) that f stores constants to: its shutdown bookkeeping"""
+    out = set()
+    for ev in f.events('STORE'):
+        lf = last_field(ev.lhs)
+        if lf is not None and lf[0] == 'qb_ipcs_connection' and lf[1] not in ('state',) and ev.d['op'] == '=' and cval(unwrap(ev.rhs)) is not None:
+            out.add(estr(ev.lhs))
+    return sorted(out)
+
+
+def r7(ctx, st):
+    """a connection is shut down once: whatever state a first qb_ipcs_disconnect leaves the connection in - while its closed
+    callback runs, after it was accepted, while its re-run is queued - a second qb_ipcs_disconnect (from the callback, from
+    qb_ipcs_destroy, from whoever still holds a reference) calls no callback, queues no job and drops no reference; only the queued
+    re-run gets connection_closed called again"""
+    prog = ctx.prog
+    d = prog.fn('qb_ipcs_disconnect')
+    cv = d.params[0]['n']
+    sv = '%s->state' % cv
+    closed_st = [ev for ev in d.events('STORE') if ev.rhs is not None and callee_of(unwrap(ev.rhs)) == SLOT % 'connection_closed']
+    job_st = [ev for ev in d.events('STORE') if ev.rhs is not None and callee_of(unwrap(ev.rhs)) == 'qb_ipcs_poll_handlers::job_add']
+    if len(closed_st) != 1 or len(job_st) != 1:
+        raise AnalysisBroken('qb_ipcs_disconnect: closed result stores=%d job_add result stores=%d' % (len(closed_st), len(job_st)))
+    resv, jobv = estr(closed_st[0].lhs), estr(job_st[0].lhs)
+    flags = {estr(ev.lhs) for ev in d.events('STORE') if unwrap(ev.lhs).get('k') == 'var' and cval(unwrap(ev.rhs)) in (0, 1)} | \
+            {ev.d['var'] for ev in d.events('DECL') if 'init' in ev.d and cval(unwrap(ev.d['init'])) in (0, 1)}
+    book = _const_fields(d)
+    slots = _slot_tests(d, 'connection_closed') + _slot_tests(d, 'job_add')
+    tracked = {sv, resv, jobv, cv} | flags | set(book) | set(slots)
+
+    def run(env0, closed_res, job_res):
+        def eff(ev, env):
+            if ev.d is closed_st[0].d:
+                return {resv: closed_res, '#skip': True}
+            if ev.d is job_st[0].d:
+                return {jobv: job_res, '#skip': True}
+            return None
+        env = dict(env0)
+        for sl in slots:
+            env[sl] = 1
+        env[cv] = 1     # a connection, not NULL
+        return abstract_run(d, env, tracked=tracked, effect=eff)
+
+    def persistent(env):
+        return {k: v for k, v in env.items() if k == sv or k in book}
+
+    def effects(visits):
+        return sorted({ev.callee for (ev, _env) in visits if ev.kind == 'CALL' and ev.callee in (
+            SLOT % 'connection_closed', 'qb_ipcs_connection_unref', 'qb_ipcs_poll_handlers::job_add')})
+    first = {sv: st['QB_IPCS_CONNECTION_ESTABLISHED']}
+    for fl in book:
+        first[fl] = 0
+    n = 0
+    for (cname, closed_res, job_res) in (('accepted', 0, 0), ('refused, re-run queued', 1, 0), ('refused, job refused', 1, -12)):
+        visits, terms = run(first, closed_res, job_res)
+        inside = [persistent(env) for (ev, env) in visits if ev.d is closed_st[0].d]
+        after = [persistent(env) for (kind, env, *_r) in [t if len(t) >= 2 else (t[0], {}) for t in terms] if kind == 'exit']
+        if not inside or not after:
+            raise AnalysisBroken('qb_ipcs_disconnect: first shutdown not understood (%s)' % cname)
+        for (when, envs) in (('from inside connection_closed', inside), ('after the first one returned (%s)' % cname, after)):
+            seen = []
+            for e in envs:
+                if e in seen:
+                    continue
+                seen.append(e)
+                v2, _t2 = run(e, 0, 0)
+                eff2 = effects(v2)
+                n += 1
+                ctx.check('R7', 'second-disconnect-does-nothing:%s:%s' % (cname, when.split(' (')[0].replace(' ', '-')), not eff2, d,
+                          'a second qb_ipcs_disconnect %s finds nothing to do' % when,
+                          'a second qb_ipcs_disconnect %s (connection left as %s) calls %s again: connection_closed runs twice / the initial '
+                          'reference is dropped twice (use after free in the queued re-run, in qb_ipcs_destroy, or in the holder of a reference)' % (
+                              when, ', '.join('%s=%s' % (k.split('->')[-1], v) for k, v in sorted(e.items())), ' and '.join(x.split('::')[-1] for x in eff2)))
+        if closed_res == 1 and job_res == 0:
+            # the queued job must get connection_closed called again
+            jf = unwrap(unwrap(job_st[0].rhs)['args'][2])
+            while jf.get('k') == 'cast':
+                jf = unwrap(jf['e'])
+            jname = jf.get('n') if jf.get('k') in ('fn', 'ref', 'var') else None
+            if jname is None or not prog.has_fn(jname):
+                raise AnalysisBroken('qb_ipcs_disconnect: re-run job function not understood: %s' % estr(jf))
+            for e in seen:
+                e2 = None
+                if jname == d.name:
+                    e2 = e
+                else:
+                    j = prog.fn(jname)
+                    loc = [ev.d['var'] for ev in j.events('DECL')] + [q['n'] for q in j.params]
+                    # the connection inside the job function: the argument of its call to qb_ipcs_disconnect
+                    cs = list(j.calls(d.name))
+                    if len(cs) != 1:
+                        raise AnalysisBroken('%s: calls to qb_ipcs_disconnect = %d' % (jname, len(cs)))
+                    jc = estr(unwrap(cs[0].args[0]))
+                    envj = {k.replace(cv + '->', jc + '->', 1): v for k, v in e.items()}
+                    vj, _tj = abstract_run(j, envj, tracked=set(envj))
+                    at = [env for (ev, env) in vj if ev.d is cs[0].d]
+                    if at:
+                        e2 = {k.replace(jc + '->', cv + '->', 1): v for k, v in at[0].items()}
+                ok = False
+                if e2 is not None:
+                    v3, _t3 = run(persistent(e2), 0, 0)
+                    ok = SLOT % 'connection_closed' in effects(v3) and 'qb_ipcs_connection_unref' in effects(v3)
+                n += 1
+                ctx.check('R7', 'queued-re-run-calls-closed-again', ok, job_st[0], 'the queued job (%s) gets connection_closed called again and, once accepted, the initial reference dropped' % jname,
+                          'the job queued after connection_closed returned non-zero (%s) does not get it called again: the connection is never destroyed' % jname)
+    if n < 6:
+        raise AnalysisBroken('R7: only %d re-entry situations evaluated' % n)
+
+
+def r8(ctx):
+    """qb_ipcs_destroy disconnects every connection; connection_closed of one may disconnect or release any other: the walk must hold
+    a reference to the connection it will go on with, not a list pointer"""
+    prog = ctx.prog
+    f = prog.fn('qb_ipcs_destroy')
+    ds = list(f.calls('qb_ipcs_disconnect'))
+    if not ds:
+        raise AnalysisBroken('qb_ipcs_destroy: no disconnect')
+    getters = ('qb_ipcs_connection_first_get', 'qb_ipcs_connection_next_get')
+    for dcall in ds:
+        srcs, entry = value_sources(f, dcall.args[0], dcall)
+        srcs = [x for x in srcs if x.get('k') != 'update']
+        byref = bool(srcs) and not entry and all(callee_of(unwrap(x)) in getters for x in srcs)
+        ctx.check('R8', 'destroy:walk-holds-references', byref, dcall, 'the connections disconnected by qb_ipcs_destroy come from first_get/next_get, which reference them',
+                  'qb_ipcs_destroy walks the list by pointers (%s): connection_closed of one connection may disconnect or release the next one, and the saved '
+                  'pointer is followed into freed memory' % ', '.join(sorted({estr(x)[:50] for x in srcs})))
+        nx = [ev for ev in f.events('STORE') if ev.rhs is not None and callee_of(unwrap(ev.rhs)) == 'qb_ipcs_connection_next_get']
+        ok = bool(nx) and all(f.ev_dominates(x, dcall) for x in nx)
+        ctx.check('R8', 'destroy:next-taken-before-disconnect', (not byref) or ok, dcall, 'the next connection is referenced before the current one is disconnected',
+                  'the next connection is looked up after the current one was disconnected (the current one may be gone)')
+        un = [ev for ev in f.calls('qb_ipcs_connection_unref') if f.may_follow(dcall, ev)]
+        ctx.check('R8', 'destroy:walk-reference-dropped', (not byref) or bool(un), dcall, 'the walk drops its reference after the disconnect', 'the walk never drops the references it takes')
+
+
+def r9(ctx, st):
+    """a connection outlives its transport (it stays listed and may be referenced after qb_ipcs_disconnect took the transport down):
+    every library entry point that hands a connection to the transport (send, sendv, fc_set, q_len_get, dispatch_mod) does so only
+    where the connection was seen to be ESTABLISHED or ACTIVE"""
+    prog = ctx.prog
+    UP = {st['QB_IPCS_CONNECTION_ESTABLISHED'], st['QB_IPCS_CONNECTION_ACTIVE']}
+    TRANSPORT = ('qb_ipcs_funcs::send', 'qb_ipcs_funcs::sendv', 'qb_ipcs_funcs::fc_set', 'qb_ipcs_funcs::q_len_get', 'qb_ipcs_poll_handlers::dispatch_mod')
+    # helper predicates: static functions that return non-zero only for a connection whose state is in UP
+    preds = set()
+    for h in prog.all_fns(files={'lib/ipcs.c'}):
+        rets = h.returns()
+        if len(h.params) != 1 or len(rets) != 1 or rets[0].e is None or list(h.events('CALL')) or list(h.events('STORE')):
+            continue
+        sts = set()
+        good = True
+        for a in atoms_of(rets[0].e, True):
+            lf = last_field(a.l)
+            good = good and False
+        # the returned expression: a disjunction of state == X
+        def disj(e):
+            e = unwrap(e)
+            if e.get('k') == 'bin' and e.get('op') == '||':
+                return disj(e['l']) + disj(e['r'])
+            return [e]
+        parts = disj(rets[0].e)
+        vals = []
+        for pt in parts:
+            if pt.get('k') == 'bin' and pt.get('op') == '==' and last_field(pt['l']) == ('qb_ipcs_connection', 'state') and cval(unwrap(pt['r'])) is not None:
+                vals.append(cval(unwrap(pt['r'])))
+            else:
+                vals = None
+                break
+        if vals and set(vals) <= UP:
+            preds.add(h.name)
+
+    def up(a, fb):
+        l = unwrap(a.l)
+        if callee_of(l) in preds and a.op == '!=' and a.rc == 0:
+            return True
+        return last_field(a.l) == ('qb_ipcs_connection', 'state') and a.op == '==' and a.rc in UP
+    EXEMPT = {
+        'qb_ipcs_disconnect': 'takes the transport down itself, per state',
+        'qb_ipcs_connection_unref': 'the final release',
+        'qb_ipcs_dispatch_connection_request': 'the poll callback of a registered descriptor: the transport removes its descriptors from the loop when it goes down',
+    }
+    # static helpers are judged at their callers: what they do with the transport counts for every non-static function that reaches them
+    fns = {f.name: f for f in prog.all_fns(files={'lib/ipcs.c'})}
+    n = 0
+    for f in fns.values():
+        if f.static or f.name in EXEMPT:
+            continue
+        # transport calls in f itself and in static helpers it calls (one level of helpers is what the file has; deeper chains inherit)
+        work = [(f, None)]
+        seen = set()
+        while work:
+            g, via = work.pop()
+            for ev in g.events('CALL'):
+                if ev.callee in TRANSPORT:
+                    site = via or ev
+                    key = (site.d.get('id'), ev.callee)
+                    if key in seen:
+                        continue
+                    seen.add(key)
+                    n += 1
+                    guarded = f.uncut_path(site, up) is None or (via is not None and g.uncut_path(ev, up) is None)
+                    ctx.check('R9', '%s:%s-needs-live-transport' % (f.name, ev.callee.split('::')[1]), guarded, site,
+                              'reached only for an ESTABLISHED or ACTIVE connection',
+                              '%s hands the connection to the transport (%s%s) without having seen it ESTABLISHED or ACTIVE: a connection that was '
+                              'disconnected but is still listed or referenced has its rings closed, its control page unmapped and descriptor numbers that may '
+                              'belong to another connection' % (f.name, ev.callee.split('::')[1], (' in ' + g.name) if via is not None else ''))
+                elif ev.callee in fns and fns[ev.callee].static and ev.callee not in preds and (via is None or len(seen) < 200):
+                    h = fns[ev.callee]
+                    if (h.name, (via or ev).d.get('id')) in seen:
+                        continue
+                    seen.add((h.name, (via or ev).d.get('id')))
+                    work.append((h, via or ev))
+    if n < 6:
+        raise AnalysisBroken('R9: only %d transport uses found' % n)
+    ctx.note('R9 exemptions: %s' % '; '.join('%s (%s)' % kv for kv in sorted(EXEMPT.items())))
+
+
+def r10(ctx):
+    """connection_destroyed runs with the count at zero: a reference taken and dropped inside it (a send does that) must not start a
+    second destruction"""
+    prog = ctx.prog
+    f = prog.fn('qb_ipcs_connection_unref')
+    cb = list(f.calls(SLOT % 'connection_destroyed'))
+    if len(cb) != 1:
+        raise AnalysisBroken('qb_ipcs_connection_unref: destroyed sites = %d' % len(cb))
+
+    def is_inc(ev):
+        if ev.kind == 'CALL':
+            op = refcount_op(ev.d.get('e'), 'qb_ipcs_connection', 'refcount')
+            if op and op[0] == 'inc':
+                return True
+            return ev.callee == 'qb_ipcs_connection_ref' and estr(unwrap(ev.args[0])) == f.params[0]['n']
+        return ev.kind == 'STORE' and last_field(ev.lhs) == ('qb_ipcs_connection', 'refcount') and \
+            (ev.d['op'] in ('++', '+=') or (cval(unwrap(ev.rhs)) or 0) >= 1)
+    # from the zero edge to the callback an increment must be passed
+    zero_edges = []
+    for b in f.blocks.values():
+        if b.cond is None:
+            continue
+        for (t, lab) in b.succs:
+            if lab in (True, False) and any(_last_atom(f, a, b) for a in atoms_of(b.cond, lab)):
+                zero_edges.append((b.id, t))
+    if not zero_edges:
+        raise AnalysisBroken('qb_ipcs_connection_unref: the count-reached-zero edge was not found')
+    def is_dec(ev):
+        if ev.kind == 'CALL':
+            op = refcount_op(ev.d.get('e'), 'qb_ipcs_connection', 'refcount')
+            return bool(op and op[0] == 'dec') or (ev.callee == 'qb_ipcs_connection_unref' and estr(unwrap(ev.args[0])) == f.params[0]['n'])
+        if ev.kind in ('STORE', 'DECL'):
+            rhs = ev.rhs if ev.kind == 'STORE' else ev.d.get('init')
+            if rhs is not None and any(n.get('k') == 'call' and (refcount_op(n, 'qb_ipcs_connection', 'refcount') or (None,))[0] == 'dec' for n in walk(rhs)):
+                return True
+        return ev.kind == 'STORE' and last_field(ev.lhs) == ('qb_ipcs_connection', 'refcount') and ev.d['op'] in ('--', '-=')
+    bad = False
+    for (bid, t) in zero_edges:
+        hits, _e, _n = f.search(('edge', bid, t), goal=lambda ev: ev is cb[0], stop=is_inc)
+        bad = bad or bool(hits)
+        incs, _e, _n = f.search(('edge', bid, t), goal=is_inc, stop=lambda ev: ev is cb[0])
+        for (iv, _p) in incs:
+            decs, _e2, _n2 = f.search(('after', iv), goal=is_dec, stop=lambda ev: ev is cb[0])
+            bad = bad or bool(decs)
+    ctx.check('R10', 'destroyed-runs-under-a-guard-reference', not bad, cb[0], 'the count is raised again before connection_destroyed is called',
+              'connection_destroyed is called with the count at 0: a qb_ipcs_connection_ref/unref pair inside it (any send, an application that takes and '
+              'drops a reference) takes the count 0 -> 1 -> 0 and destroys the connection a second time from inside the callback (double free)')
+
+
+def _last_atom(f, a, fb):
+    if dec_and_test_atom(a, 'qb_ipcs_connection', 'refcount'):
+        return True
+    if a.op == '!=' and a.rc == 0 and unwrap(a.l).get('k') == 'var':
+        defs, entry = f.reaching_defs(unwrap(a.l)['n'], f.end_of(fb.id))
+        for d in defs:
+            rhs = d.rhs if d.kind == 'STORE' else d.d.get('init')
+            r = unwrap(rhs) if rhs else {}
+            if r.get('k') == 'bin' and r['op'] == '==' and refcount_op(r['l'], 'qb_ipcs_connection', 'refcount') and cval(unwrap(r['r'])) == 1:
+                return not entry
+    return False
 
 
 def r3(ctx):
